@@ -49,8 +49,8 @@ Monitor(ev) ==
   ELSE IF prevErr # 0 /\ ev.e \in Advancing /\ (ev.ret = 1 \/ ev.err2 = 0) THEN Msg("C09", "advancing call succeeded or cleared the error although an error was set")
   ELSE IF ev.err2 # 0 /\ ev.e # "gn" /\ (ev.t # 0 \/ ev.iv # Zero8 \/ ev.dv # Zero8 \/ ev.bv # 0 \/ ev.sv # <<>> \/ ev.yv # <<>>)
        THEN Msg("C09", "a getter is not neutral while an error is set")
-  ELSE IF ev.e \in Advancing /\ ev.cb > (ev.hi - ev.u0) + (IF ev.e \in {"raw", "tw"} THEN 2 ELSE 1)
-       THEN Msg("C16", "more token callbacks than bytes moved over")
+  ELSE IF ev.e \in Advancing /\ ev.cb > ((IF ev.used >= 0 THEN ev.used ELSE ev.hi) - ev.u0) + (IF ev.e \in {"raw", "tw"} THEN 2 ELSE 1)
+       THEN Msg("C16", "more token callbacks than bytes advanced over (net cursor movement)")
   ELSE ""
 
 \* the set of properties in whose scope a Layer-A mismatch of this call lies
